@@ -9,6 +9,7 @@ use serde_json::{json, Value as J};
 pub fn table_ref(j: &J) -> TableRef {
     match j {
         J::String(s) => a(s).into_table_ref(),
+        J::Array(v) if v.len() == 1 => a(v[0].as_str().unwrap()).into_table_ref(),
         J::Array(v) if v.len() == 2 => (a(v[0].as_str().unwrap()), a(v[1].as_str().unwrap())).into_table_ref(),
         J::Array(v) if v.len() == 3 => {
             (a(v[0].as_str().unwrap()), a(v[1].as_str().unwrap()), a(v[2].as_str().unwrap())).into_table_ref()
@@ -21,6 +22,8 @@ pub fn order(j: &J) -> Order {
     match j {
         J::String(s) if s == "Asc" => Order::Asc,
         J::String(s) if s == "Desc" => Order::Desc,
+        J::Object(o) if o.get("d").map(|d| d == "Asc").unwrap_or(false) => Order::Asc,
+        J::Object(o) if o.get("d").map(|d| d == "Desc").unwrap_or(false) => Order::Desc,
         J::Object(o) if o.contains_key("field") => {
             Order::Field(Values(o["field"].as_array().unwrap().iter().map(to_value).collect()))
         }
@@ -42,6 +45,14 @@ pub fn frame(j: &J) -> Frame {
             "UnboundedPreceding" => Frame::UnboundedPreceding,
             "CurrentRow" => Frame::CurrentRow,
             "UnboundedFollowing" => Frame::UnboundedFollowing,
+            _ => panic!("frame"),
+        },
+        J::Object(o) if o.contains_key("b") => match o["b"].as_str().unwrap() {
+            "UnboundedPreceding" => Frame::UnboundedPreceding,
+            "CurrentRow" => Frame::CurrentRow,
+            "UnboundedFollowing" => Frame::UnboundedFollowing,
+            "Preceding" => Frame::Preceding(o["n"].as_u64().unwrap() as u32),
+            "Following" => Frame::Following(o["n"].as_u64().unwrap() as u32),
             _ => panic!("frame"),
         },
         J::Object(o) => {
@@ -148,7 +159,7 @@ fn lock_type(s: &str) -> LockType {
 }
 
 fn returning(j: &J) -> ReturningClause {
-    if j == "all" {
+    if j == "all" || j.get("all").is_some() {
         Query::returning().all()
     } else if let Some(cols) = j.get("cols") {
         Query::returning().columns(cols.as_array().unwrap().iter().map(col_ref).collect::<Vec<_>>())
@@ -161,7 +172,7 @@ fn returning(j: &J) -> ReturningClause {
 pub fn apply_select(s: &mut SelectStatement, c: &J) {
     let op = c["op"].as_str().unwrap_or_else(|| panic!("op missing in {c}"));
     match op {
-        "column" => { s.column(col_ref(&c["c"])); }
+        "column" => { s.column(col_of(c)); }
         "expr" => { s.expr(expr(&c["e"])); }
         "expr_as" => { s.expr_as(expr(&c["e"]), a(&st(c, "a"))); }
         "expr_window" => {
@@ -205,7 +216,7 @@ pub fn apply_select(s: &mut SelectStatement, c: &J) {
         "and_having" => { s.and_having(expr(&c["e"])); }
         "cond_having" => { s.cond_having(cond(&c["c"])); }
         "group_by" => { s.add_group_by([expr(&c["e"])]); }
-        "group_by_col" => { s.group_by_col(col_ref(&c["c"])); }
+        "group_by_col" => { s.group_by_col(col_of(c)); }
         "order_by" => {
             match nulls(&c["nulls"]) {
                 Some(n) => s.order_by_expr_with_nulls(expr(&c["e"]), order(&c["o"]), n),
@@ -280,6 +291,7 @@ pub fn on_conflict(j: &J) -> OnConflict {
     }
     match &j["action"] {
         J::String(s) if s == "nothing" => { oc.do_nothing(); }
+        J::Object(o) if o.contains_key("nothing") => { oc.do_nothing(); }
         J::Object(o) => {
             if let Some(cols) = o.get("nothing_on") {
                 oc.do_nothing_on(cols.as_array().unwrap().iter().map(|c| a(c.as_str().unwrap())).collect::<Vec<_>>());
@@ -436,5 +448,16 @@ pub fn any(j: &J) -> AnyStmt {
             AnyStmt::With(q)
         }
         k => panic!("stmt kind {k}"),
+    }
+}
+
+pub fn any_eq(a: &AnyStmt, b: &AnyStmt) -> bool {
+    match (a, b) {
+        (AnyStmt::Select(x), AnyStmt::Select(y)) => x == y,
+        (AnyStmt::Insert(x), AnyStmt::Insert(y)) => x == y,
+        (AnyStmt::Update(x), AnyStmt::Update(y)) => x == y,
+        (AnyStmt::Delete(x), AnyStmt::Delete(y)) => x == y,
+        (AnyStmt::With(x), AnyStmt::With(y)) => x == y,
+        _ => false,
     }
 }
